@@ -98,27 +98,33 @@ class Recorder:
         if v.status == "violated":
             model = v.model
             # prefer a small / replay-friendly counterexample when one exists (staged extra constraints)
+            preferred = not prefer
             for extra in (prefer or []):
                 r2, m2 = smt.check_sat(list(hyps) + list(extra) + [z3.Not(goal)], min(timeout_ms, 5000), nonlinear)
                 if r2 == "sat":
                     model = m2
+                    preferred = True
                     break
             cex = smt.model_dict(model, names)
             rec["cex"] = smt.jsonable(cex)
             if replay is not None and not os.environ.get("SYMX_MUTANT_RUN"):
-                # one violation class (key) is replayed until it reproduces once, at most 3 times: further counterexamples of the
-                # same class reuse that verdict (replays of whole models take seconds each)
+                # one violation class (key) is replayed until it reproduces once; failing replays are repeated with further counterexamples
+                # of the class while the time spent on it stays within SYMX_REPLAY_BUDGET_S (default 120 s), afterwards the last verdict is shared
                 cache = self.__dict__.setdefault("_replay_cache", {})
-                prev = cache.setdefault(rec["key"], [])
-                hit = next((x for x in prev if x[0]), None) or (prev[-1] if len(prev) >= 3 else None)
+                ent = cache.setdefault(rec["key"], {"attempts": [], "spent": 0.0})
+                hit = next((x for x in ent["attempts"] if x[0]), None)
+                if hit is None and ent["attempts"] and ent["spent"] >= float(os.environ.get("SYMX_REPLAY_BUDGET_S", "120")):
+                    hit = ent["attempts"][-1]
                 if hit is not None:
                     ok, detail = hit[0], {**(hit[1] if isinstance(hit[1], dict) else {"detail": hit[1]}), "replay_shared_with_same_class": True}
                 else:
+                    t_r = time.time()
                     try:
                         ok, detail = replay(cex)
                     except Exception as e:  # replay machinery failed: harness error
                         ok, detail = None, {"error": repr(e), "trace": traceback.format_exc()[-1500:]}
-                    prev.append((ok, detail))
+                    ent["spent"] += time.time() - t_r
+                    ent["attempts"].append((ok, detail, preferred))
                 rec["reproduced"] = ok
                 rec["replay_detail"] = smt.jsonable(detail)
             else:
